@@ -13,6 +13,7 @@ open OPM OPM.Wire OPM.Access
        one engine event applied to the driver's state (`RESET` = empty aggregator) → the state:
        `<online id:roles:run|…>\t<recent id:roles:run|…>\t<runs id:roles|…>`
   `probe <route index> <id> <user roles>`  → the endpoint's answer in the world of the current state
+  `acc <required roles> <user roles>` → `1`/`0` (`hasAccess`); `accmut` = self-test mutant (all roles needed)
 answers: `notfound` | `forbidden <roles>` | `pass` | `list <ids>` | `illformed` -/
 
 def parseList (s : String) (sep : String) : List String :=
@@ -78,6 +79,14 @@ def step (st : AState) (line : String) : AState × String :=
     match parseEvent rest with
     | some e => let st' := OPM.Access.step st e; (st', showState st')
     | none => (st, "bad-op")
+  | ["acc", required, user] =>
+    match parseRoles required, parseRoles user with
+    | some r, some u => (st, showBool (hasAccess r u))
+    | _, _ => (st, "bad-op")
+  | ["accmut", required, user] =>      -- self-test mutant: every required role is needed
+    match parseRoles required, parseRoles user with
+    | some r, some u => (st, showBool (r.all (fun x => u.contains x)))
+    | _, _ => (st, "bad-op")
   | ["probe", idx, id, roles] =>
     match idx.toNat?, decodeStr id, parseRoles roles with
     | some i, some id, some roles =>
